@@ -11,7 +11,7 @@ WHAT = {
  "C05": ("framing loop: chunking invariance (any frames, any cuts), progress, no silent stall", "C05"),
  "C06": ("capabilities-exchange gate, CER outcome, CE timeout on the node state machine model; for every state and CER, receive_cer makes no connection ready unless it returns normally having queued a 2001 CEA with the CER's hop-by-hop id on that connection; for every sequence of operations: no request is pending with an application for a connection still in CONNECTING/CONNECTED, a connection never re-enters those states, connection objects are never dropped and their id is their position", "C06"),
  "C07": ("node model: no answer in reaction to an answer, answers mirror requests; for every sequence of operations: every pending (connection, hop-by-hop id) pair, every request in a reader queue or socket inbox, belongs to a request the socket of that connection delivered earlier in the history, so an answer route_answer accepts goes to a connection on which a request with its hop-by-hop id was received, and every answer in any write queue or write buffer (node-built or submitted by an application) carries the hop-by-hop id of a request received on that connection; for every state and message: processing one received message queues at most one message, on the receiving connection (the catch-all 5012 is never sent in addition to a handler's own answer; table obligation: DWA / DPA are typed commands)", "C07"),
- "C08": ("node model: 5005/3003 error rules; table obligation on required definitions; for every sequence of operations, whatever reaches an application's request handler (or its queues) is a request of a command other than CER/DWR/DPR (the concurrent entry of two reader threads into the validation function is explored on the real code under single-preemption schedules); for every state and message, processing one received message hands it to at most one application, at most once", "C08"),
+ "C08": ("node model: 5005/3003/3007/5012 error rules; table obligation on required definitions; for every sequence of operations, whatever reaches an application's request handler (or its queues) is a request of a command other than CER/DWR/DPR (the concurrent entry of two reader threads into the validation function is explored on the real code under single-preemption schedules); for every state and message, processing one received message hands it to at most one application, at most once", "C08"),
  "C09": ("node model: answer routing to the requesting connection; racing submissions for one request (lookup/removal shape extracted from the source): at most one gets through under every schedule; for every sequence of operations the connection route_answer chooses is one on which a request with that hop-by-hop id was received; for every state a refused submission changes no write queue and an accepted one appends exactly the answer to exactly the chosen connection", "C09"),
  "C10": ("node model: request routing to eligible ready peers, id assignment, answer correlation; hop-by-hop ids drawn by concurrent senders from one connection's generator (line skeleton regenerated from the source) are distinct and non-zero under every schedule of any number of threads; for every state an unroutable request changes no write queue and a routed one is appended, with non-zero identifiers, to exactly the chosen connection", "C10"),
  "C11": ("watchdog clauses of the timer check for all clock and timeout values; for every sequence of operations a connection awaiting a DWA carries a valid DWR time stamp, so that in every reachable state the timer check closes it once the DWA timeout is exceeded and sends no second DWR before; for every state a DWR received in either ready sub-state is answered by exactly one 2001 answer on its connection, changes no connection state and reaches no application", "C11"),
